@@ -44,7 +44,21 @@ MODES_V1 = {
     "single_call": dict(dialog=True, yaml="rails:\n  dialog:\n    single_call:\n      enabled: True\n"),
     "multi_step": dict(dialog=True, yaml="enable_multi_step_generation: True\n"),
     "passthrough": dict(dialog=False, yaml="passthrough: True\n"),
+    # LLM calls made by library rails: the shipped self-check rails (input / output / facts) with their real actions; the
+    # request carries the context that switches the fact check on and the evidence it checks against
+    "check_rails": dict(dialog=False, context={"check_facts": True, "relevant_chunks": "The sky is blue."},
+                        yaml="rails:\n  input:\n    flows:\n      - self check input\n  output:\n    flows:\n      - self check output\n      - self check facts\n"
+                             "  dialog:\n    single_call:\n      enabled: False\n"
+                             "prompts:\n  - task: self_check_input\n    content: |-\n      Block the user message? {{ user_input }}\n      Answer:\n"
+                             "  - task: self_check_output\n    content: |-\n      Block the bot message? {{ bot_response }}\n      Answer:\n"
+                             "  - task: self_check_facts\n    content: |-\n      Evidence: {{ evidence }}\n      Hypothesis: {{ response }}\n      Entails?\n      Answer:\n"),
 }
+
+
+def _messages(version, mode, utext):
+    """the request for one turn: the user message, preceded by the context message a mode asks for"""
+    ctx = MODES_V1.get(mode, {}).get("context") if version != "2.x" else None
+    return ([{"role": "context", "content": dict(ctx)}] if ctx else []) + [{"role": "user", "content": utext}]
 
 V2_LLM = """
 import core
@@ -71,6 +85,10 @@ def well_formed(task, prompt, version, mode):
         if "user intent:" in prompt[-60:]:
             return "user asked something"
         return 'bot say "LLMTEXT-ok"'
+    if "self_check_facts" in t:
+        return "yes"
+    if "self_check" in t:
+        return "No"
     if "generate_intent_steps_message" in t:
         return '  ask\nbot inform capabilities\n  "LLMTEXT-ok"'
     if "generate_user_intent" in t:
@@ -188,7 +206,7 @@ def explore(task):
             return well_formed(task, prompt, version, mode)
         nonce[0] += 1
         utext = ut if v2 else f"UMARK{nonce[0]}q hello there"
-        ref = run_turn_guarded(world, [{"role": "user", "content": utext}], {}, wf, state={} if v2 else None)
+        ref = run_turn_guarded(world, _messages(version, mode, utext), {}, wf, state={} if v2 else None)
         if ref.exc is not None:
             res["viol"].append((f"well-formed-run-raised:{version}:{mode}", repr(ref.exc), info0))
             continue
@@ -212,7 +230,7 @@ def explore(task):
                         return _hs[k]
                     return well_formed(task, prompt, version, mode)
 
-                turn = run_turn_guarded(world, [{"role": "user", "content": utext}], {}, fn, state={} if v2 else None)
+                turn = run_turn_guarded(world, _messages(version, mode, utext), {}, fn, state={} if v2 else None)
                 res["turns"] += 1
                 info = dict(info0, user=utext, hostile={str(k): (v if len(v) < 300 else v[:40] + f"...(len {len(v)})") for k, v in hs.items()},
                             hostile_full_len={str(k): len(v) for k, v in hs.items()})
@@ -227,7 +245,7 @@ def explore(task):
                 if turn.exc is None and not v2:
                     reply = turn.reply if isinstance(turn.reply, dict) else None
                     if reply and reply.get("role") == "assistant":
-                        msgs = [{"role": "user", "content": utext}, reply, {"role": "user", "content": utext + " again"}]
+                        msgs = _messages(version, mode, utext) + [reply, {"role": "user", "content": utext + " again"}]
                         t2 = run_turn_guarded(world, msgs, {}, wf)
                         res["turns"] += 1
                         for sig, what in check_reply(t2, [h], utext):
@@ -240,7 +258,7 @@ def explore(task):
         # whatever the LLM returned in the turns above is data of those turns: the same well-formed turn asked again on
         # the instance that served them is answered as it was at the beginning
         if not isinstance(world, type(None)):
-            again = run_turn_guarded(world, [{"role": "user", "content": ref_utext}], {}, wf, state={} if v2 else None)
+            again = run_turn_guarded(world, _messages(version, mode, ref_utext), {}, wf, state={} if v2 else None)
             res["turns"] += 1
             res["well_formed_turns_repeated_on_the_used_instance"] = res.get("well_formed_turns_repeated_on_the_used_instance", 0) + 1
             if again.exc is not None or again.text != ref.text:
@@ -260,7 +278,7 @@ def explore(task):
                         k = i - _base
                         return _hs[k] if k in _hs else well_formed(task, prompt, version, mode)
 
-                    turn = run_turn_guarded(world, [{"role": "user", "content": utext}], {}, fn2, state={} if v2 else None)
+                    turn = run_turn_guarded(world, _messages(version, mode, utext), {}, fn2, state={} if v2 else None)
                     res["turns"] += 1
                     info = dict(info0, user=utext, hostile={str(k): v[:60] for k, v in hs.items()})
                     for sig, what in check_reply(turn, [ha, hb], utext):
